@@ -1,0 +1,10 @@
+//go:build !verif
+
+package grpctunnel
+
+// Hook points used by the verification harness under /verif. Without the
+// "verif" build tag they are empty and compile away.
+
+func verifYield(string) {}
+
+func verifNoteServer(*tunnelServer) func() { return func() {} }
